@@ -424,7 +424,7 @@ fn run_case(line: &str, decode: DecodeLevel) -> String {
     let rt = tokio::runtime::Builder::new_current_thread().enable_time().start_paused(true).build().unwrap();
     let (replies, end) = rt.block_on(async move {
         let wire = Wire::new();
-        let (tx, rx) = tokio::sync::mpsc::channel(4);
+        let (tx, rx) = tokio::sync::mpsc::channel(64);
         let mut handle = Some(ServerHandle::new(tx));
         let gate = Arc::new(Mutex::new(GateState::default()));
         let io = Box::new(Gate { wire: wire.clone(), st: gate.clone() });
@@ -439,8 +439,9 @@ fn run_case(line: &str, decode: DecodeLevel) -> String {
             if let Some(cmd) = fr.strip_prefix('@') {
                 match cmd {
                     "shutdown" => {
+                        // a session that does not drain its command queue must not wedge the harness
                         if let Some(h) = handle.as_mut() {
-                            let _ = h.shutdown().await;
+                            let _ = tokio::time::timeout(std::time::Duration::from_millis(10), h.shutdown()).await;
                         }
                     }
                     "close" => {
@@ -468,7 +469,7 @@ fn run_case(line: &str, decode: DecodeLevel) -> String {
                     }
                     level => {
                         if let Some(h) = handle.as_mut() {
-                            let _ = h.set_decode_level(decode_level(level)).await;
+                            let _ = tokio::time::timeout(std::time::Duration::from_millis(10), h.set_decode_level(decode_level(level))).await;
                         }
                     }
                 }
